@@ -117,6 +117,9 @@ func runFamilies(r *core.Report, fams []*FamilySpec, tier string) []*FamilyRun {
 	if n := pipeline.ResultCacheHits.Load(); n > 0 {
 		r.Set("shards_reused_from_result_cache", map[string]any{"shards": n, "note": "exploration output of an identical worker binary (same /repo tree, harness and programs) and identical bounds, produced by an earlier check of this tree; VERIF_NO_RESULT_CACHE=1 re-runs everything"})
 	}
+	if n := pipeline.TransientIncidents.Load(); n > 0 {
+		r.Set("transient_worker_incidents", map[string]any{"count": n, "note": "a worker process stalled or died once and the program completed normally in two isolated re-runs (machine stall; the watchdog measures wall-clock time without progress); the isolated result was used"})
+	}
 	pipeline.Evict()
 	return out
 }
